@@ -72,7 +72,9 @@ pub fn story_to_json_value(
     output.insert("inkVersion".to_owned(), json!(INK_VERSION_CURRENT));
     output.insert("root".to_owned(), root_value);
     output.insert("listDefs".to_owned(), Value::Object(list_defs));
-    Ok(Value::Object(output))
+    let mut document = Value::Object(output);
+    crate::link::redirect_relocated(&mut document, &context.relocated_containers.borrow());
+    Ok(document)
 }
 
 #[derive(Debug, Default)]
@@ -120,6 +122,10 @@ struct EmitContext {
     /// Unqualified flow/stitch target names mapped to their absolute path
     /// when the name is unique across the story.
     unqualified_flow_targets: BTreeMap<String, String>,
+    /// Containers that a choice block placed somewhere else than the label pre-scan assumed:
+    /// (assumed path, emitted path). References built from the assumed paths are redirected
+    /// once the story is complete.
+    relocated_containers: std::cell::RefCell<Vec<(String, String)>>,
 }
 
 fn register_unqualified_flow_target(
@@ -432,6 +438,7 @@ impl EmitContext {
             qualified_choice_labels,
             function_ref_param_positions,
             unqualified_flow_targets,
+            relocated_containers: Default::default(),
         }
     }
 
